@@ -39,7 +39,7 @@ def replay(rec, tree):
         job = dict(rec["record"]["job"], tree=tree)
         res = hubutil.run_worker(rec["interp"], rec["hashseed"], job, timeout=1800)
         return sorted(set(fingerprints_of_job_result(res)))
-    job = {"engine": "C", "mode": "replay", "tree": tree, "tier": rec.get("tier", "quick"), "record": rec["record"]}
+    job = {"engine": "C", "mode": "replay", "tree": tree, "tier": rec.get("tier", "quick"), "record": rec["record"], "py_flags": rec.get("py_flags", [])}
     res = hubutil.run_worker(rec["interp"], rec["hashseed"], job, timeout=300)
     return res["got"]
 
@@ -57,8 +57,10 @@ def run(prop, tier):
     jobs = []
     for b in range(nb):
         runs = [[i, prng.derive(seed, prop, "C", i)] for i in range(b * bs, (b + 1) * bs)]
+        # configuration knob: every fifth batch runs its interpreter with -O (assert statements compiled away)
+        pyflags = ["-O"] if b % 5 == 4 else []
         jobs.append({"kind": "batch", "b": b, "interp": hubutil.OLD[(b + rot) % 4], "hashseed": prng.derive(seed, prop, "hs", b) % (2 ** 32),
-                     "job": {"engine": "C", "mode": "batch", "tree": tree, "tier": tier, "runs": runs, "known": sorted(known),
+                     "job": {"engine": "C", "mode": "batch", "tree": tree, "tier": tier, "runs": runs, "known": sorted(known), "py_flags": pyflags,
                              "keep_ops_for": [runs[0][0]] if b < 4 else []}})
     exhaustive_on = []
     for interp in hubutil.OLD:
@@ -165,7 +167,8 @@ def run(prop, tier):
             prog = v["prog"]
             record = {"prog": prog, "optimize": v["optimize"], "object_index": v["object_index"], "alteration": v["alteration"]}
         rec = {"property": prop, "engine": "C", "fingerprint": f, "interp": v["_interp"], "hashseed": v["_hashseed"], "tier": tier, "base_seed": seed,
-               "detail": {k: x for k, x in v.items() if not k.startswith("_") and k != "prog"}, "record": record}
+               "detail": {k: x for k, x in v.items() if not k.startswith("_") and k != "prog"}, "record": record,
+               "py_flags": v.get("_job", {}).get("py_flags", [])}
         got = replay(rec, tree)
         if f not in got:
             # second level: re-execute the whole original job (cross-run / cross-conversion state)
